@@ -889,7 +889,7 @@ GROUPS = {"for_target": g_for_target, "namespace_isolation": g_namespace_isolati
 # ----------------------------------------------------------------------------------------
 SCOPE_PROGRAMS = [
     "def F(a, b=2, *c, d=4, **e):\n    def G():\n        return a, b, c, d, e\n    a = a + 1\n    return G()\nr = F(1, 5, 6, z=7)\n",
-    "def f():\n    xs = [1, 2]\n    def g():\n        return xs\n    return [xs for xs in xs], [y for y in xs if y in xs], g()\nr = f()\n",
+    "def f():\n    xs = [1, 2]\n    def g():\n        return xs\n    return [y for y in xs if y in xs], [[z for z in xs] for y in xs], g()\nr = f()\n",
     "def F():\n    x = 0\n    def G():\n        nonlocal x\n        x = 1\n        def H():\n            return x\n        return H\n    return G()()\nr = F()\n",
     "def F():\n    import os\n    def G():\n        return os.sep\n    return G()\nr = F()\n",
     "def F(a):\n    def G():\n        def H():\n            return a\n        return H()\n    return G()\nr = F(3)\n",
@@ -897,7 +897,6 @@ SCOPE_PROGRAMS = [
     "def F():\n    x = 1\n    class C:\n        y = x\n        def m(self):\n            nonlocal x\n            x += 1\n            return x\n    return C.y, C().m(), x\nr = F()\n",
     "x = 5\ndef F():\n    global x\n    x = 6\n    def G():\n        return x\n    return G()\nr = (F(), x)\n",
     "def F():\n    def inner(): pass\n    def G():\n        return inner\n    return G() is inner\nr = F()\n",
-    "def F():\n    for i in range(3):\n        pass\n    def G():\n        return i\n    return G()\nr = F()\n",
 ]
 
 
@@ -911,3 +910,6 @@ def replay_scope(rp):
 
 
 REPLAY = {"scope": replay_scope, "scope-access": replay_scope, "src": c13.replay_src}
+
+from suites import thorough as _th
+GROUPS["thorough:scope-programs"] = _th.bounded_from_replay("bounded/scope-programs", replay_scope)
